@@ -2,6 +2,7 @@ package props
 
 import (
 	"fmt"
+	"go/token"
 	"go/types"
 	"strings"
 
@@ -128,6 +129,41 @@ func c15Targets(p *core.Prog, r *core.Run, pre string) {
 		pos := p.InstrPos(s.Instr)
 		ip, port, ech, alpn := s.X.Args[0], s.X.Args[1], s.X.Args[2], s.X.Args[3]
 		fs := p.Facts(s.Block())
+		// STOP: once the consumer has said stop (the helper returned false) no
+		// further target is offered: that way out reaches no other emit call
+		if cv, ok := s.Instr.(ssa.Value); ok {
+			stops := false
+			for _, ref := range *cv.Referrers() {
+				iff, isIf := ref.(*ssa.If)
+				if !isIf {
+					if u, isNot := ref.(*ssa.UnOp); isNot && u.Op == token.NOT {
+						for _, r2 := range *u.Referrers() {
+							if i2, ok := r2.(*ssa.If); ok {
+								// !add(...): the true edge is "stop"
+								stops = true
+								for b := range core.Reachable(i2.Block().Succs[0], nil) {
+									for _, in := range b.Instrs {
+										if c, ok := in.(*ssa.Call); ok && p.X(c).Fn == add {
+											stops = false
+										}
+									}
+								}
+							}
+						}
+					}
+					continue
+				}
+				stops = true
+				for b := range core.Reachable(iff.Block().Succs[1], nil) {
+					for _, in := range b.Instrs {
+						if c, ok := in.(*ssa.Call); ok && p.X(c).Fn == add {
+							stops = false
+						}
+					}
+				}
+			}
+			r.Check(pre+".GUARDS", key+":stop", stops, pos, "when the consumer stops the enumeration (the emit helper returns false) no further target is offered")
+		}
 		if !body[s.Block()] {
 			nOut++
 			// plain addresses
@@ -186,6 +222,22 @@ func c15Targets(p *core.Prog, r *core.Run, pre string) {
 			if ok && v == rv {
 				src = "hints"
 			}
+		}
+		// PORT: the record's own port, when it has one, is the last word (the
+		// 80 -> 443 upgrade applies to the origin's port only)
+		if pv, ok := s.Instr.Common().Args[1].(*ssa.Phi); ok {
+			own := false
+			for k, e := range pv.Edges {
+				x := p.X(e)
+				if v, isRec := recField(x, "Port"); isRec && v == rv {
+					for _, f := range p.EdgeFacts(pv.Block().Preds[k], pv.Block()) {
+						if v2, ok2 := recField(f.L, "Port"); ok2 && v2 == rv && f.Op == ">" && f.R != nil && f.R.Name == "0" {
+							own = true
+						}
+					}
+				}
+			}
+			r.Check(pre+".GUARDS", key+":port", own, pos, "the port offered is the record's own port whenever the record has one, decided last: %s", short(port))
 		}
 		r.Check(pre+".PAIR", key, pair && src != "", pos, "target from an HTTPS record: ECH, ALPN and port come from the same record as the addresses (%v); addresses from %q", pair, src)
 		// guards
